@@ -13,14 +13,15 @@ PROPERTY = "C06"
 LEVEL = "exploration"
 RULE = ("seeded queries = successful prefix of 0-4 actions (generator of C01, non-canonical spellings included) + one "
         "injected failure {raising command, unknown command, unconvertible int/float, too few / too many arguments, failing "
-        "absolute link at depth 1-3, failing relative link, missing resource} + 0-3 canary actions and canaries inside later "
+        "absolute link at depth 1-3, failing relative link, a relative link that succeeded on a shorter prefix, missing resource} + 0-3 canary actions and canaries inside later "
         "link arguments; evaluated with NoCache and with MemoryCache cold and warm. Evaluations = failing evaluations "
         "observed; non-trivial = failure not in the first action or inside a link; distinct = distinct (query, cache mode).")
 ASSUMPTIONS = ["failure location is taken from the reference interpreter; canaries are commands used nowhere else"]
 SHARD_TIMEOUT = {"quick": 900, "thorough": 5400}
 
 KINDS = ["raises", "unknown", "convert_int", "convert_float", "too_few", "too_many", "abs_link", "abs_link_deep",
-         "rel_link", "missing_resource", "link_missing_resource", "sub_fails", "fails_beside_good_link", "two_links"]
+         "rel_link", "missing_resource", "link_missing_resource", "sub_fails", "fails_beside_good_link", "two_links",
+         "rel_link_repeat"]
 
 
 def shards(tier, seed):
@@ -71,6 +72,16 @@ def gen_case(rnd, g):
         can = ["after%d" % (1 + i) for i in range(rnd.randint(0, 2))]
         q = res + "/-/" + "/".join(acts + can)
         return {"q": q, "kind": kind, "npre": 0, "ncan": len(can), "cache": rnd.choice(["none", "memory_cold", "memory_warm"])}
+    if kind == "rel_link_repeat":
+        # a relative link whose text already occurred - and evaluated fine on a shorter prefix - fails on this prefix
+        pre, fa = rnd.choice([("one/add-~X~ident~E/cat-x", "add-~X~ident~E"),
+                              ("one/cat-~X~mulf-~X~ident~E~E/cat-x", "cat-~X~mulf-~X~ident~E~E"),
+                              ("num-2/add-~X~ident~E/cat-q/ident", "cat-a-~X~ident/add-~X~ident~E~E"),
+                              ("one/pair-~X~add-~X~ident~E~E-b/ident", "pair-~X~add-~X~ident~E~E-c")])
+        ncan = rnd.randint(0, 3)
+        can = ["after%d" % (1 + i % 2) for i in range(ncan)]
+        return {"kind": kind, "npre": 1, "pre": pre, "fa": fa, "can": can, "ncan": ncan,
+                "cache": rnd.choice(["none", "none", "memory_cold", "memory_warm"])}
     npre = rnd.randint(0, 4)
     if kind == "rel_link" and npre == 0:
         npre = 1
@@ -435,8 +446,8 @@ def run_shard(spec):
         for _ in range(spec["n"]):
             case = gen_case(rnd, g)
             if "q" not in case:
-                pre = ""
-                if case["npre"]:
+                pre = case.pop("pre", "")
+                if case["npre"] and not pre:
                     for _try in range(20):
                         g.max_len = case["npre"]
                         cand = g.query(0)
